@@ -12,7 +12,7 @@ def conds(tier):
     cs = [
         xh.Cond(M, "c08_name_single", t(150, 900), examples=["a='double'", "a='aa'", "a='Point3'", "a='size_t'"],
                 bounds="all argument names of length <= %d" % la),
-        xh.Cond(M, "c08_name_nested", t(240, 1500), examples=["a='vec', b='d'", "a='aXa', b='aa'"], bounds="len(a), len(b) <= %d" % (2 if q else 3)),
+        xh.Cond(M, "c08_name_nested", t(240, 1500), examples=["a='vec', b='d'", "a='aXa', b='aa'"], bounds="len(a) <= %d, len(b) <= %d" % ((2, 1) if q else (3, 2))),
         xh.Cond(M, "c08_class_and_members", t(300, 1800), examples=["a='Pose'", "a='pose'", "a='dd'"], bounds="all argument names of length <= %d" % (3 if q else 5)),
     ]
     if os.path.exists(os.path.join(os.path.dirname(__file__), "..", "harness", "c08_product.py")):
